@@ -62,12 +62,18 @@ def twin_case_file(cases):
 def corpus_cases(prop):
     out = []
     for f in sorted(glob.glob(os.path.join(C.ROOT, "corpus", "bridge", prop + "_*.json"))):
+        if f.endswith("_seeds.json"): continue
         try:
             d = json.load(open(f))
             out += d if isinstance(d, list) else d.get("cases", [])
         except Exception:
             pass
     return out
+
+def corpus_seeds(prop):
+    f = os.path.join(C.ROOT, "corpus", "bridge", prop + "_seeds.json")
+    try: return json.load(open(f))
+    except Exception: return []
 
 def shrink_case(c, upto):
     """a prefix of the history that still contains the offending call"""
@@ -117,6 +123,14 @@ def check_C09(run, replay=None):
                 c = json.loads(l)
                 if c.get("harness_panic"): crashed += 1; continue
                 c["origin"] = "generated seed=%d" % seed; cases.append(c)
+        if not rp:
+            for cs in corpus_seeds("C09"):      # the corpus: seeds that exhibited past defects, re-executed on the current code
+                rc2, out2 = C.sh("%s %d %d %d" % (bins["bridge_twin"], cs["seed"], cs["count"], cs["max_steps"]), timeout=600)
+                for l in out2.splitlines():
+                    if l.startswith("{"):
+                        c = json.loads(l)
+                        if c.get("harness_panic"): crashed += 1; continue
+                        c["case"] = "corpus%d-%s" % (cs["seed"], c.get("case")); c["origin"] = "corpus seed=%d" % cs["seed"]; cases.insert(0, c)
         run.oblige("harness-run bridge_twin completed every history", rc == 0 and crashed == 0,
                    "rc=%d, histories on which the harness's own bookkeeping broke: %d; %s" % (rc, crashed, out[-300:] if rc else ""))
     if rp:
@@ -245,6 +259,14 @@ def check_C02(run, replay=None):
                 c = json.loads(l)
                 if c.get("harness_panic"): crashed += 1; continue
                 c["profile"] = prof; c["origin"] = "generated seed=%d" % seed; cases.append(c)
+        if not rp:
+            for cs in corpus_seeds("C02"):
+                rc2, out2 = C.sh("%s %d %d %d" % (bins["bridge_arity"], cs["seed"], cs["count"], cs["max_steps"]), timeout=600)
+                for l in out2.splitlines():
+                    if l.startswith("{"):
+                        c = json.loads(l)
+                        if c.get("harness_panic"): crashed += 1; continue
+                        c["case"] = "corpus%d-%s" % (cs["seed"], c.get("case")); c["profile"] = prof; c["origin"] = "corpus seed=%d" % cs["seed"]; cases.insert(0, c)
         run.oblige("harness-run bridge_arity (%s) completed every case" % prof, rc == 0 and crashed == 0,
                    "rc=%d, cases on which the harness's own bookkeeping broke: %d; %s" % (rc, crashed, out[-300:] if rc else ""))
     if rp:
